@@ -445,9 +445,99 @@ func c18Rules(p *core.Prog, r *core.Run) {
 			r.Check("C18.K4", "worker:hand-over", okEdge, p.InstrPos(s.Instr), "an established connection is handed to sendConn on dialOne's success edge")
 		}
 	}
+	// the same with the helper written into the worker (it was a method that
+	// got inlined): a blocking select on dialOne's success edge that either
+	// sends the connection or, on Done, closes it
+	isConn := func(e *core.Expr) bool {
+		if alts := e.Alts(); len(alts) == 1 {
+			e = alts[0]
+		}
+		return e.Op == "ext" && e.Name == "#0" && e.Args[0].Op == "call" && sameFn(e.Args[0].Fn, m.dialOne)
+	}
+	var handSel *ssa.Select
 	if sendConn == nil {
-		r.Check("C18.K4", "sendConn", false, p.Pos(m.worker.Pos()), "the worker does not hand an established connection to a literal of Dial")
-	} else {
+		for _, b := range m.worker.Blocks {
+			for _, in := range b.Instrs {
+				sel, ok := in.(*ssa.Select)
+				if !ok || !sel.Blocking || len(sel.States) != 2 || in.Parent() != m.worker {
+					continue
+				}
+				doneIdx, sendIdx := -1, -1
+				for i, st := range sel.States {
+					if st.Dir == 2 && isDone(st.Chan) {
+						doneIdx = i
+					}
+					if st.Dir == 1 && isConn(p.X(st.Send)) {
+						sendIdx = i
+					}
+				}
+				if doneIdx < 0 || sendIdx < 0 {
+					continue
+				}
+				handSel = sel
+				okEdge := false
+				for _, f := range p.Facts(b) {
+					if f.Op == "==" && f.R.Name == "nil" && f.L.Op == "ext" && f.L.Name == "#1" && sameFn(f.L.Args[0].Fn, m.dialOne) {
+						okEdge = true
+					}
+				}
+				r.Check("C18.K4", "worker:hand-over", okEdge, p.InstrPos(sel), "an established connection is offered to the collector on dialOne's success edge")
+				closed := false
+				for _, s := range callSites(p, []*ssa.Function{m.worker}, `\(io\.Closer\)\.Close`) {
+					for _, f := range p.Facts(s.Block()) {
+						if fs, ok := f.L.Select(); ok && fs == sel && f.Op == "==" {
+							if k, ok := f.R.ConstInt(); ok && int(k) == doneIdx {
+								closed = true
+							}
+						}
+					}
+				}
+				r.Check("C18.K4", "sendConn:close-or-deliver", closed, p.InstrPos(sel), "the worker either delivers the connection to the collector or, once the outcome is decided (Done), closes it (Close in the Done branch: %v)", closed)
+			}
+		}
+	}
+	if sendConn != nil || handSel != nil {
+		// ... on every way on from there: an established connection the worker
+		// decides not to offer is one nobody will close
+		isErr := func(e *core.Expr) bool {
+			return e.Op == "ext" && e.Name == "#1" && e.Args[0].Op == "call" && sameFn(e.Args[0].Fn, m.dialOne)
+		}
+		cfg, _ := pruneBy(p, m.worker, []assumption{cmpAssume("err == nil", "==", isErr, isConstName("nil"))})
+		taken := map[*ssa.BasicBlock]bool{}
+		var starts []site
+		for _, s := range allCalls(p, []*ssa.Function{m.worker}) {
+			if s.Fn != m.worker {
+				continue
+			}
+			switch {
+			case s.X.Fn != nil && s.X.Fn == sendConn, s.X.Name == "(io.Closer).Close":
+				taken[s.Block()] = true
+			case sameFn(s.X.Fn, m.dialOne):
+				starts = append(starts, s)
+			}
+		}
+		if handSel != nil {
+			taken[handSel.Block()] = true
+		}
+		for i, s := range starts {
+			if !cfg.Live(s.Block()) {
+				continue
+			}
+			lost := ""
+			for b := range cfg.ReachableAvoiding(s.Block(), taken) {
+				if b == s.Block() {
+					continue
+				}
+				if _, isRet := b.Instrs[len(b.Instrs)-1].(*ssa.Return); isRet || b.Dominates(s.Block()) {
+					lost = p.InstrPos(b.Instrs[len(b.Instrs)-1])
+				}
+			}
+			r.Check("C18.K4", fmt.Sprintf("worker:hand-over-always#%d", i), lost == "", p.InstrPos(s.Instr), "after a successful dialOne every way on (to the next target, or out) passes the hand-over to sendConn or closes the connection (a way that does neither reaches %s)", lost)
+		}
+	}
+	if sendConn == nil && handSel == nil {
+		r.Check("C18.K4", "sendConn", false, p.Pos(m.worker.Pos()), "the worker does not hand an established connection to a literal of Dial, nor offers it in a select of its own")
+	} else if sendConn != nil {
 		var sel *ssa.Select
 		for _, b := range sendConn.Blocks {
 			for _, in := range b.Instrs {
